@@ -180,7 +180,8 @@ def check_name(case):
             res = env.load(spelling, unpack)
             lc = env.last
             if res[0] != "ok":
-                return [fail("documented-name-not-loadable", {"name": spelling, "result": res[:3]}, dict(key, exc=res[1] if res[0] == "exc" else res[0]))], None
+                return [fail("documented-name-not-loadable", {"name": spelling, "result": [str(v).replace(home, "<home>") for v in res[:3]]},
+                             dict(key, exc=res[1] if res[0] == "exc" else res[0]))], None
             d = res[1]
             if unpack:
                 if not (isinstance(d, tuple) and len(d) == 2):
@@ -210,7 +211,7 @@ def check_name(case):
                         fails.append(fail("checksum-not-sha256-hex", {"checksum": m["checksum"]}, key))
                     slot = os.path.join(env.data_home, m["dataset_folder"], m["dataset_filename"])
                     if not os.path.isfile(slot):
-                        fails.append(fail("cache-not-under-TRAFFIC_WEAVER_DATA", {"expected": slot, "data_home": _walk(env.data_home) if os.path.isdir(env.data_home) else None}, key))
+                        fails.append(fail("cache-not-under-TRAFFIC_WEAVER_DATA", {"expected": slot.replace(home, "<home>"), "data_home": _walk(env.data_home) if os.path.isdir(env.data_home) else None}, key))
             if _walk(env.fake_home):
                 fails.append(fail("files-created-under-HOME", {"created": _walk(env.fake_home)}, key))
             meta = env.meta[0] if env.meta else None
